@@ -69,16 +69,27 @@ def run_cases(text, profile='release', timeout=600):
 
 _CMP_KEYS = ('eq', 'live', 'nodes', 'progress', 'classes', 'union_ret', 'readd', 'probe', 'ematch', 'rewrite_ret')
 def _norm_step(s):
+    """class ids are compared up to renaming (which id survives a merge may depend on the hash iteration order of the worklist,
+    which the native build and the model need not share): ids -> index of the first handle in that class"""
     d = {k: s.get(k) for k in _CMP_KEYS if k in s}
-    if 'classes' in d: d['classes'] = {i: {k: v for k, v in c.items() if k in ('nslots', 'gcount', 'data')} for i, c in d['classes'].items()}
-    d['canon'] = [None if c is None else {k: c[k] for k in ('id', 'idem', 'nslots', 'vals', 'map', 'hvals')} for c in s['canon']]
-    if d.get('ematch'): d['ematch'] = {'unchanged': d['ematch']['unchanged'], 'matches': sorted(d['ematch']['matches'], key=lambda x: json.dumps(x, sort_keys=True))}
+    ids = [None if c is None else c['id'] for c in s['canon']]
+    rank = {}
+    for i in ids:
+        if i is not None and i not in rank: rank[i] = len(rank)
+    d['canon'] = [None if c is None else {'class': rank[c['id']], 'idem': c['idem'], 'nslots': c['nslots'], 'vals': c['vals'], 'hvals': c['hvals']} for c in s['canon']]
+    cls = s.get('classes') or {}
+    d['classes'] = sorted(json.dumps({k: v for k, v in c.items() if k in ('nslots', 'gcount', 'data')}, sort_keys=True) for c in cls.values())
+    d['handle_classes'] = [None if c is None else {k: v for k, v in cls.get(str(c['id']), {}).items() if k in ('nslots', 'gcount', 'data')} for c in s['canon']]
+    d['live'] = len(s.get('live') or [])
     chk = s.get('check')
     if chk is not None:
         d['check'] = 'ok' if chk.get('check') == 'ok' else 'panic'
-        d['consistency'] = sorted(map(tuple, chk.get('consistency', [])))
+        d['consistency'] = sorted(set(x[0] for x in chk.get('consistency', [])))
     if 'readd' in d and d['readd'] is not None:
         d['readd'] = {k: v for k, v in d['readd'].items() if k != 'term'}
+    if d.get('ematch'):
+        def dh(h): return None if h is None else {'vals': h['vals']}
+        d['ematch'] = {'unchanged': d['ematch']['unchanged'], 'matches': sorted(({'bound': m['bound'], 'found': m['found'], 'inst': dh(m['inst']), 'binds': {k: dh(v) for k, v in m['binds'].items()}} for m in d['ematch']['matches']), key=lambda x: json.dumps(x, sort_keys=True))}
     return json.loads(json.dumps(d))
 
 def compare(sym_rec, nat_rec):
